@@ -35,7 +35,7 @@ from holopy.inference import (prior, AlphaModel, ExactModel, LimitOverlaps, Nmpf
                               LeastSquaresScipyStrategy)
 
 NUM = {"float", "float_tiny", "float_huge", "neg_zero", "int", "np_float64", "np_int64", "zero_d_array", "np_float32"}
-CPLX = {"complex", "np_complex128"}
+CPLX = {"complex", "np_complex128", "complex_neg", "np_complex_neg"}
 SEQ = {"list", "tuple", "array1d", "list_of_np"}
 PRI = {"prior", "derived_prior", "ufunc_prior"}
 
@@ -45,7 +45,8 @@ def value(kind, n=3, positive=False):
     return {
         "float": 1.47, "float_tiny": 1e-300, "float_huge": 1e300, "neg_zero": -0.0, "int": 2,
         "complex": 1.5 + 0.1j, "np_float64": np.float64(1.47), "np_int64": np.int64(2),
-        "np_complex128": np.complex128(1.5 + 0.1j), "zero_d_array": np.array(1.47), "np_float32": np.float32(1.5),
+        "np_complex128": np.complex128(1.5 + 0.1j),
+        "complex_neg": 1.5 - 0.1j, "np_complex_neg": np.complex128(1.5 - 0.1j), "zero_d_array": np.array(1.47), "np_float32": np.float32(1.5),
         "none_explicit": None, "list": list(base), "tuple": tuple(base), "array1d": np.array(base),
         "list_of_np": [np.float64(b) for b in base],
         "prior": prior.Uniform(1.0, 2.0), "derived_prior": prior.Uniform(1.0, 2.0) * 2 + 0.5,
@@ -151,7 +152,7 @@ def run(ctx):
     quick = ctx.tier == "quick"
     rng = random.Random(ctx.seed)
     tmp = tempfile.mkdtemp(prefix="c15_")
-    ctx.rule = ("TLC enumerates every pair of value kinds (21 kinds: python/numpy scalars incl. extreme "
+    ctx.rule = ("TLC enumerates every pair of value kinds (23 kinds: python/numpy scalars incl. extreme "
                 "magnitudes and -0.0, complex, 0-d arrays, lists/tuples/arrays, explicit None, nested objects, "
                 "plain/derived/ufunc/complex priors) x file/stream x 1..3 cycles; each applicable vector is "
                 "replayed on 28 catalogue entries covering the exported scatterer, prior, theory, strategy and "
